@@ -256,6 +256,16 @@ def lvalue_path(fa, place, bi, si):
     locals, else the param/field path of its origin"""
     if place["p"] and fa.upvar_name(place) is None and fa.body.local_name(place["l"]):
         l = place["l"]
+        # a named local that merely holds a parameter / captured variable (`self` moved out of the
+        # coroutine state) is that parameter
+        if not (1 <= l <= fa.body.arg_count):
+            ds = [d for d in fa.body.defs.get(l, []) if not d[3]["p"]]
+            if len(ds) == 1 and ds[0][0] == "assign" and ds[0][4]["k"] == "use":
+                src = op_place(ds[0][4]["op"])
+                if src is not None and fa.upvar_name(src) is not None and not fa.upvar_name(src)[1]:
+                    alias = path_of(lvalue_term(fa, place, bi, si))
+                    if alias is not None:
+                        return alias
         parts = [fa.body.local_name(l) if 1 <= l <= fa.body.arg_count else fa.type_name(l)]
         for e in place["p"]:
             if isinstance(e, dict) and "f" in e:
